@@ -1706,7 +1706,7 @@ macro_rules! assign_2d_range_all_b {
     for cix in 0..($sink).ncols() {
       for rix in 0..$ix.len() {
         if $ix[rix] == true {
-          ($sink).column_mut(cix)[rix - 1] = ($source).clone();
+          ($sink).column_mut(cix)[rix] = ($source).clone();
         }
       }
     }
